@@ -42,6 +42,8 @@ enum Malformed {
 }
 
 struct Doc {
+    /// decides the order of the fields inside every node tuple
+    order: u64,
     version: Option<String>,
     encoding: Option<String>,
     standalone: Option<bool>,
@@ -221,7 +223,8 @@ impl C12 {
         let mut scope = vec![];
         let mut bad = None;
         let root = self.gen_node(t, 1, &mut scope, &mut bad, strict_xml);
-        Doc { version, encoding, standalone, root, malformed }
+        let order = t.u64();
+        Doc { order, version, encoding, standalone, root, malformed }
     }
 }
 
@@ -270,7 +273,7 @@ fn node_from_json(j: &J) -> Option<Node> {
 
 fn doc_to_json(d: &Doc) -> J {
     serde_json::json!({
-        "version": d.version, "encoding": d.encoding, "standalone": d.standalone,
+        "order": d.order.to_string(), "version": d.version, "encoding": d.encoding, "standalone": d.standalone,
         "malformed": format!("{:?}", d.malformed), "root": node_to_json(&d.root),
     })
 }
@@ -286,6 +289,7 @@ fn doc_from_json(j: &J) -> Option<Doc> {
         _ => Malformed::RootIsText,
     };
     Some(Doc {
+        order: j.get("order").and_then(|o| o.as_str()).and_then(|s| s.parse().ok()).unwrap_or(0),
         version: j.get("version").and_then(|v| v.as_str()).map(|s| s.to_string()),
         encoding: j.get("encoding").and_then(|v| v.as_str()).map(|s| s.to_string()),
         standalone: j.get("standalone").and_then(|v| v.as_bool()),
@@ -294,7 +298,12 @@ fn doc_from_json(j: &J) -> Option<Doc> {
     })
 }
 
-fn node_to_gval(n: &Node, inject: &mut Option<Malformed>) -> GVal {
+fn node_to_gval(n: &Node, inject: &mut Option<Malformed>, order: &mut u64) -> GVal {
+    // xorshift: a different field order at every node, fixed by the document's seed
+    *order ^= *order << 13;
+    *order ^= *order >> 7;
+    *order ^= *order << 17;
+    let rot = *order;
     match n {
         Node::Text(s) => GVal::Str(s.clone()),
         Node::TextTuple(s) => GVal::Tuple(vec![("text".into(), GVal::Str(s.clone()))]),
@@ -328,22 +337,33 @@ fn node_to_gval(n: &Node, inject: &mut Option<Malformed>) -> GVal {
             match children {
                 None => fs.push(("children".into(), GVal::Null)),
                 Some(c) => {
-                    let mut items: Vec<GVal> = c.iter().map(|x| node_to_gval(x, inject)).collect();
+                    let mut items: Vec<GVal> = c.iter().map(|x| node_to_gval(x, inject, order)).collect();
                     match inject {
                         Some(Malformed::NodeNotTupleOrString) => {
                             items.push(GVal::Int(7));
                             *inject = None;
                         }
                         Some(Malformed::NameAndText) => {
-                            items.push(GVal::Tuple(vec![
-                                ("name".into(), GVal::Str("both".into())),
-                                ("text".into(), GVal::Str("t".into())),
-                            ]));
+                            let mut both = vec![
+                                ("name".to_string(), GVal::Str("both".into())),
+                                ("text".to_string(), GVal::Str("t".into())),
+                            ];
+                            if rot & 1 == 1 {
+                                both.reverse();
+                            }
+                            items.push(GVal::Tuple(both));
                             *inject = None;
                         }
                         _ => {}
                     }
                     fs.push(("children".into(), GVal::List(items)));
+                }
+            }
+            if rot != 0 {
+                let k = (rot % fs.len() as u64) as usize;
+                fs.rotate_left(k);
+                if (rot >> 8) & 1 == 1 {
+                    fs.reverse();
                 }
             }
             GVal::Tuple(fs)
@@ -366,12 +386,19 @@ fn doc_to_gval(d: &Doc) -> GVal {
         Malformed::NodeNotTupleOrString | Malformed::NameAndText => Some(d.malformed.clone()),
         _ => None,
     };
-    let mut root = node_to_gval(&d.root, &mut inject);
+    let mut order = d.order;
+    let mut root = node_to_gval(&d.root, &mut inject, &mut order);
     if inject.is_some() {
         // no children list took the injection: put it at the root
         root = match d.malformed {
             Malformed::NodeNotTupleOrString => GVal::Int(7),
-            _ => GVal::Tuple(vec![("name".into(), GVal::Str("both".into())), ("text".into(), GVal::Str("t".into()))]),
+            _ => {
+                let mut both = vec![("name".to_string(), GVal::Str("both".into())), ("text".to_string(), GVal::Str("t".into()))];
+                if d.order & 1 == 1 {
+                    both.reverse();
+                }
+                GVal::Tuple(both)
+            }
         };
     }
     match d.malformed {
